@@ -33,6 +33,10 @@ type step struct {
 	panicS                       string
 	status                       string
 	offTicks                     bool // create: some price of the triple is not on a tick (not admissible at keeper level)
+	appID, pairID, poolID        uint64 // keeper level: the ids involved (0 at amm level)
+	accepted                     bool   // keeper level: the message was accepted (a rejected one must change nothing)
+	foreign                      string // none | otherApp | otherPool | notInPair : the request named a coin that is not the pool's
+	foreignBurned                *big.Int
 }
 
 func z() *big.Int { return new(big.Int) }
@@ -40,7 +44,8 @@ func z() *big.Int { return new(big.Int) }
 func newStep(op, level, kind string) *step {
 	return &step{op: op, level: level, kind: kind, rx: z(), ry: z(), ps: z(), rx2: z(), ry2: z(), ps2: z(), inX: z(), inY: z(), ax: z(), ay: z(),
 		pc: z(), reqPc: z(), outX: z(), outY: z(), fee: sdkmath.LegacyZeroDec(), fAx: z(), fAy: z(), fPc: z(), fOutX: z(), fOutY: z(),
-		uX: z(), uY: z(), uPc: z(), price: sdkmath.LegacyZeroDec(), mn: sdkmath.LegacyZeroDec(), mx: sdkmath.LegacyZeroDec()}
+		uX: z(), uY: z(), uPc: z(), price: sdkmath.LegacyZeroDec(), mn: sdkmath.LegacyZeroDec(), mx: sdkmath.LegacyZeroDec(),
+		accepted: true, foreign: "none", foreignBurned: z()}
 }
 
 func (s *step) node() map[string]interface{} {
@@ -90,6 +95,7 @@ func (s *step) node() map[string]interface{} {
 	}
 	return map[string]interface{}{
 		"rangeMiss": miss, "offTicks": s.offTicks,
+		"appId": s.appID, "pairId": s.pairID, "poolId": s.poolID, "accepted": s.accepted, "foreign": s.foreign, "foreignBurned": s.foreignBurned.String(),
 		"big": bigMode, "op": s.op, "level": s.level, "kind": s.kind, "neg": neg,
 		"rx": N(s.rx), "ry": N(s.ry), "ps": N(s.ps), "rx2": N(s.rx2), "ry2": N(s.ry2), "ps2": N(s.ps2),
 		"inX": N(s.inX), "inY": N(s.inY), "ax": N(s.ax), "ay": N(s.ay), "pc": N(s.pc),
@@ -157,30 +163,49 @@ func ammWithdraw(kind string, rx, ry, ps, pc *big.Int, fee sdkmath.LegacyDec, mn
 
 // ---- keeper level ----------------------------------------------------------------------------------
 
-// sharesFix: the keeper fixture with exactly ONE pool (two pools of one pair with different prices trade against each
-// other at the end of a batch, which would blur the observation of a single deposit / withdrawal).
+// sharesFix: the skewed-id fixture (keeper.go) plus the pools under test, all in pair 3 of app 2:
+//
+//	pool 1 ranged [0.5, 2], pool 2 ranged [0.5, 2], pool 3 basic   (pool id != pair id for the ranged pools; pairs 1 and 2
+//	of the app exist and each shares exactly one coin with pair 3)
+//
+// and the foreign app 1 with pools 1 (basic), 2, 3 (ranged) in its own ubase/uquote pair, created by the attacker,
+// who therefore holds share coins "of pool k" for every pool id k under test.
+// Two enabled pools of one pair with different prices trade against each other at the end of a batch, which would blur
+// the observation of a single deposit / withdrawal: a driver works on ONE pool and disables the others (only) in its branch.
 type sharesFix struct {
 	*kfix
-	pool   ltypes.Pool
+	pools  []ltypes.Pool // index 0, 1: ranged; 2: basic
+	others []ltypes.Pool // the foreign app's pools, same ids
 	mn, mx sdkmath.LegacyDec
 }
 
-const sink = nActors - 1 // actor used as source / sink of injected reserves
-
-func newSharesFix(base *kfix, ranged bool) *sharesFix {
+func newSharesFix(base *kfix) *sharesFix {
 	dec := sdkmath.LegacyMustNewDecFromStr
 	sf := &sharesFix{kfix: base.branch(), mn: dec("0.5"), mx: dec("2")}
-	var p ltypes.Pool
-	var r sim.Result
-	if ranged {
-		p, r = sf.createRanged(0, big.NewInt(2000000), big.NewInt(2000000), sf.mn, sf.mx, dec("1"))
-	} else {
-		p, r = sf.createPool(0, big.NewInt(2000000), big.NewInt(2000000))
+	two := big.NewInt(2000000)
+	add := func(p ltypes.Pool, r sim.Result, to *[]ltypes.Pool) {
+		if !r.OK {
+			panic("create pool: " + r.Err)
+		}
+		*to = append(*to, p)
 	}
-	if !r.OK {
-		panic("create pool: " + r.Err)
+	for i := 0; i < 2; i++ {
+		p, r := sf.createRanged(0, two, two, sf.mn, sf.mx, dec("1"))
+		add(p, r, &sf.pools)
 	}
-	sf.pool = p
+	p, r := sf.createPool(0, two, two)
+	add(p, r, &sf.pools)
+	p, r = sf.createPoolIn(sf.otherApp, sf.otherPair, attacker, two, two)
+	add(p, r, &sf.others)
+	for i := 0; i < 2; i++ {
+		p, r = sf.createRangedIn(sf.otherApp, sf.otherPair, attacker, two, two, sf.mn, sf.mx, dec("1"))
+		add(p, r, &sf.others)
+	}
+	for i := range sf.pools {
+		if sf.pools[i].Id != uint64(i+1) || sf.others[i].Id != uint64(i+1) || sf.pools[i].PairId != sf.pair.Id {
+			panic("fixture pool ids not as designed")
+		}
+	}
 	return sf
 }
 
@@ -188,6 +213,16 @@ func (f *sharesFix) br() *sharesFix {
 	n := *f
 	n.kfix = f.kfix.branch()
 	return &n
+}
+
+// only: disables every pool of the pair under test except the one with index keep (in this branch).
+func (f *sharesFix) only(keep int) ltypes.Pool {
+	for i, p := range f.pools {
+		if i != keep {
+			f.e.App.LiquidityKeeper.MarkPoolAsDisabled(f.e.Ctx, p)
+		}
+	}
+	return f.pools[keep]
 }
 
 func (f *kfix) supply(denom string) *big.Int { return f.e.App.BankKeeper.GetSupply(f.e.Ctx, denom).Amount.BigInt() }
@@ -230,9 +265,16 @@ func kindOf(p ltypes.Pool) string {
 
 type snap struct{ rx, ry, ps, uX, uY, uPc *big.Int }
 
+// snap: reserves in the pool's OWN pair denoms (as the fixture created them) and the supply of the pool's OWN share
+// denom (derived from app id and pool id, not read from any record a handler could have mixed up).
 func (f *kfix) snap(p ltypes.Pool, user sdk.AccAddress) snap {
-	return snap{f.bal(p.GetReserveAddress(), quoteDenom), f.bal(p.GetReserveAddress(), baseDenom), f.supply(p.PoolCoinDenom),
-		f.bal(user, quoteDenom), f.bal(user, baseDenom), f.bal(user, p.PoolCoinDenom)}
+	own := ltypes.PoolCoinDenom(p.AppId, p.Id)
+	res := ltypes.PoolReserveAddress(p.AppId, p.Id)
+	return snap{f.bal(res, quoteDenom), f.bal(res, baseDenom), f.supply(own), f.bal(user, quoteDenom), f.bal(user, baseDenom), f.bal(user, own)}
+}
+
+func (s *step) ids(p ltypes.Pool) {
+	s.appID, s.pairID, s.poolID = p.AppId, p.PairId, p.Id
 }
 
 func (f *kfix) poolPrice(s *step, p ltypes.Pool) {
@@ -250,7 +292,8 @@ func (f *kfix) poolPrice(s *step, p ltypes.Pool) {
 }
 
 // kDeposit: MsgDeposit from `who`, then the end of the batch; everything observed on real balances.
-func (f *kfix) kDeposit(p ltypes.Pool, who int, x, y *big.Int) (*step, bool) {
+// extra: additional coins put into the message (adversarial: a coin that is not in the pool's pair).
+func (f *kfix) kDeposit(p ltypes.Pool, who int, x, y *big.Int, extra sdk.Coins) (*step, bool) {
 	user := f.e.Users[actor(who)]
 	coins := sdk.Coins{}
 	if x.Sign() > 0 {
@@ -259,28 +302,33 @@ func (f *kfix) kDeposit(p ltypes.Pool, who int, x, y *big.Int) (*step, bool) {
 	if y.Sign() > 0 {
 		coins = coins.Add(sdk.NewCoin(baseDenom, I(y)))
 	}
+	coins = coins.Add(extra...)
 	if coins.Empty() {
 		return nil, false
 	}
-	u0 := f.snap(p, user)
-	r := f.e.Deliver(ltypes.NewMsgDeposit(f.appID, user, p.Id, coins))
-	if !r.OK {
-		return nil, false
-	}
 	s := newStep("deposit", "keeper", kindOf(p))
+	s.ids(p)
+	if !extra.Empty() {
+		s.foreign = "notInPair"
+	}
+	u0 := f.snap(p, user)
+	r := f.e.Deliver(ltypes.NewMsgDeposit(p.AppId, user, p.Id, coins))
+	s.accepted = r.OK
 	pre := f.snap(p, user)
 	s.rx, s.ry, s.ps, s.inX, s.inY = pre.rx, pre.ry, pre.ps, x, y
-	guard(s, func() {
-		ax, ay, pc := ramm.Deposit(I(pre.rx), I(pre.ry), I(pre.ps), I(x), I(y))
-		s.fAx, s.fAy, s.fPc = ax.BigInt(), ay.BigInt(), pc.BigInt()
-	})
+	if r.OK {
+		guard(s, func() {
+			ax, ay, pc := ramm.Deposit(I(pre.rx), I(pre.ry), I(pre.ps), I(x), I(y))
+			s.fAx, s.fAy, s.fPc = ax.BigInt(), ay.BigInt(), pc.BigInt()
+		})
+	}
 	pan, ps := f.endBatch()
 	s.panicked, s.panicS = s.panicked || pan, s.panicS+ps
 	post := f.snap(p, user)
 	s.rx2, s.ry2, s.ps2 = post.rx, post.ry, post.ps
 	s.ax, s.ay, s.pc = new(big.Int).Sub(post.rx, pre.rx), new(big.Int).Sub(post.ry, pre.ry), new(big.Int).Sub(post.ps, pre.ps)
 	s.uX, s.uY, s.uPc = new(big.Int).Sub(u0.uX, post.uX), new(big.Int).Sub(u0.uY, post.uY), new(big.Int).Sub(post.uPc, u0.uPc)
-	if pp, ok := f.e.App.LiquidityKeeper.GetPool(f.e.Ctx, f.appID, p.Id); ok && pp.Disabled {
+	if pp, ok := f.e.App.LiquidityKeeper.GetPool(f.e.Ctx, p.AppId, p.Id); ok && pp.Disabled {
 		s.status = "disabled"
 	}
 	f.poolPrice(s, p)
@@ -289,27 +337,41 @@ func (f *kfix) kDeposit(p ltypes.Pool, who int, x, y *big.Int) (*step, bool) {
 
 // kWithdraw: MsgWithdraw of pc shares from `who`, then the end of the batch.
 func (f *kfix) kWithdraw(p ltypes.Pool, who int, pc *big.Int, fee sdkmath.LegacyDec) (*step, bool) {
+	return f.kWithdrawCoin(p, who, sdk.NewCoin(ltypes.PoolCoinDenom(p.AppId, p.Id), I(pc)), "none", fee), true
+}
+
+// kWithdrawCoin: MsgWithdraw on pool p paid with an arbitrary coin (foreign != "none": the share coin of another pool
+// or of the pool with the same id in another app), then the end of the batch. The node is recorded whether or not the
+// message is accepted: pc is what was burned of the pool's OWN share coin, outX / outY what left the pool's reserves.
+func (f *kfix) kWithdrawCoin(p ltypes.Pool, who int, coin sdk.Coin, foreign string, fee sdkmath.LegacyDec) *step {
 	user := f.e.Users[actor(who)]
-	u0 := f.snap(p, user)
-	r := f.e.Deliver(ltypes.NewMsgWithdraw(f.appID, user, p.Id, sdk.NewCoin(p.PoolCoinDenom, I(pc))))
-	if !r.OK {
-		return nil, false
-	}
 	s := newStep("withdraw", "keeper", kindOf(p))
+	s.ids(p)
+	s.foreign = foreign
+	u0 := f.snap(p, user)
+	fs0 := f.supply(coin.Denom)
+	r := f.e.Deliver(ltypes.NewMsgWithdraw(p.AppId, user, p.Id, coin))
+	s.accepted = r.OK
 	pre := f.snap(p, user)
+	pc := coin.Amount.BigInt()
 	s.rx, s.ry, s.ps, s.reqPc, s.fee = pre.rx, pre.ry, pre.ps, pc, fee
-	guard(s, func() {
-		x, y := ramm.Withdraw(I(pre.rx), I(pre.ry), I(pre.ps), I(pc), fee)
-		s.fOutX, s.fOutY = x.BigInt(), y.BigInt()
-	})
+	if r.OK {
+		guard(s, func() {
+			x, y := ramm.Withdraw(I(pre.rx), I(pre.ry), I(pre.ps), I(pc), fee)
+			s.fOutX, s.fOutY = x.BigInt(), y.BigInt()
+		})
+	}
 	pan, ps := f.endBatch()
 	s.panicked, s.panicS = s.panicked || pan, s.panicS+ps
 	post := f.snap(p, user)
 	s.rx2, s.ry2, s.ps2 = post.rx, post.ry, post.ps
 	s.outX, s.outY, s.pc = new(big.Int).Sub(pre.rx, post.rx), new(big.Int).Sub(pre.ry, post.ry), new(big.Int).Sub(pre.ps, post.ps)
 	s.uX, s.uY, s.uPc = new(big.Int).Sub(post.uX, u0.uX), new(big.Int).Sub(post.uY, u0.uY), new(big.Int).Sub(u0.uPc, post.uPc)
+	if foreign != "none" {
+		s.foreignBurned = new(big.Int).Sub(fs0, f.supply(coin.Denom))
+	}
 	f.poolPrice(s, p)
-	return s, true
+	return s
 }
 
 // ---- vectors ----------------------------------------------------------------------------------------
@@ -422,23 +484,22 @@ func sharesMain(args []string) int {
 	lg := &sim.Log{}
 	dec := sdkmath.LegacyMustNewDecFromStr
 	base := newFix()
-	sf := newSharesFix(base, false)
-	sfR := newSharesFix(base, true)
-	// small-mode keeper fixtures, one per pool kind and fee of the model (the fee is an app parameter)
+	sf := newSharesFix(base)
+	// small-mode keeper fixtures, one per pool under test and fee of the model (the fee is an app parameter);
+	// in each of them the other pools of the pair are disabled
 	kf := map[string]*sharesFix{}
-	fixFor := func(kind string, feeMilli int64) *sharesFix {
-		key := fmt.Sprintf("%s/%d", kind, feeMilli)
+	fixFor := func(idx int, feeMilli int64) *sharesFix {
+		key := fmt.Sprintf("%d/%d", idx, feeMilli)
 		if f, ok := kf[key]; ok {
 			return f
 		}
 		f := sf.br()
-		if kind == "ranged" {
-			f = sfR.br()
-		}
+		f.only(idx)
 		f.setParams([]string{"WithdrawFeeRate"}, []string{sdkmath.LegacyNewDecWithPrec(feeMilli, 3).String()})
 		kf[key] = f
 		return f
 	}
+	nforeign := 0
 	nvec, nkvec := 0, 0
 	if *vectors != "" {
 		fh, err := os.Open(*vectors)
@@ -462,9 +523,14 @@ func sharesMain(args []string) int {
 			rx, ry, ps := big.NewInt(v.Pre.Rx), big.NewInt(v.Pre.Ry), big.NewInt(v.Pre.Ps)
 			a := map[string]interface{}{"rx": v.Pre.Rx, "ry": v.Pre.Ry, "ps": v.Pre.Ps, "x": v.Args.X, "y": v.Args.Y, "pc": v.Args.Pc, "feeMilli": v.Args.Fee}
 			// the same function serves basic and ranged pools; ranged additionally reports the price after the step
-			kind := "basic"
-			if nvec%2 == 0 || v.Pre.Rx == 0 || v.Pre.Ry == 0 {
-				kind = "ranged"
+			// (every kevery-th vector also goes through the keeper: of those, two in three on the ranged pools 1 / 2, one on the basic pool 3)
+			slot := nvec
+			if *kevery > 1 {
+				slot = nvec / *kevery
+			}
+			kind := "ranged"
+			if slot%3 == 2 && v.Pre.Rx > 0 && v.Pre.Ry > 0 {
+				kind = "basic"
 			}
 			fee := sdkmath.LegacyNewDecWithPrec(v.Args.Fee, 3)
 			switch v.A {
@@ -474,19 +540,43 @@ func sharesMain(args []string) int {
 				lg.Add(0, "vec", "Withdraw", a, nil, ammWithdraw(kind, rx, ry, ps, big.NewInt(v.Args.Pc), fee, sf.mn, sf.mx).node())
 			}
 			if *kevery > 0 && nvec%*kevery == 0 {
-				f := fixFor(kind, v.Args.Fee).br()
-				pool := f.pool
+				// pool under test: ranged pools 1 and 2 alternate (pool id != pair id), the basic pool is pool 3
+				idx := 2
+				if kind == "ranged" {
+					idx = (slot / 3) % 2
+				}
+				f := fixFor(idx, v.Args.Fee).br()
+				pool := f.pools[idx]
 				f.inject(pool, rx, ry, ps)
 				var s *step
 				var ok bool
 				if v.A == "Deposit" {
-					s, ok = f.kDeposit(pool, 5, big.NewInt(v.Args.X), big.NewInt(v.Args.Y))
+					s, ok = f.kDeposit(pool, 5, big.NewInt(v.Args.X), big.NewInt(v.Args.Y), nil)
 				} else {
 					s, ok = f.kWithdraw(pool, 0, big.NewInt(v.Args.Pc), fee)
 				}
 				if ok {
 					nkvec++
 					lg.Add(0, "kvec", "K"+v.A, a, nil, s.node())
+				}
+				// adversarial twin of every 8th keeper vector: the same request naming a coin that is not the pool's
+				if nkvec%8 == 0 {
+					g := fixFor(idx, v.Args.Fee).br()
+					g.inject(pool, rx, ry, ps)
+					var t *step
+					if v.A == "Withdraw" {
+						if nkvec%16 == 0 { // the share coin of the pool with the same id in the foreign app (held by the attacker)
+							t = g.kWithdrawCoin(pool, attacker, sdk.NewCoin(ltypes.PoolCoinDenom(g.otherApp, pool.Id), I(big.NewInt(v.Args.Pc))), "otherApp", fee)
+						} else { // the share coin of another pool of the same app (actor 0 created all of them)
+							t = g.kWithdrawCoin(pool, 0, sdk.NewCoin(ltypes.PoolCoinDenom(g.appID, g.pools[(idx+1)%3].Id), I(big.NewInt(v.Args.Pc))), "otherPool", fee)
+						}
+					} else {
+						t, _ = g.kDeposit(pool, 5, big.NewInt(v.Args.X), big.NewInt(v.Args.Y), sdk.NewCoins(sdk.NewCoin(thirdDenom, sdkmath.NewInt(3))))
+					}
+					if t != nil {
+						nforeign++
+						lg.Add(0, "kvec", "K"+v.A+"Foreign", a, nil, t.node())
+					}
 				}
 			}
 		}
@@ -646,28 +736,36 @@ func sharesMain(args []string) int {
 		}
 	}
 
-	// ---- keeper level, real-size: pools created by messages, deposits / withdrawals by several actors ---
+	// ---- keeper level, real-size: fixture pools in a random state or pools created by messages; deposits, withdrawals
+	// and adversarial requests (foreign share coins, coins outside the pair) by several actors -----------------
 	nk := 0
 	for sidx := 0; sidx < *nkeeper; sidx++ {
-		f := base.branch()
 		run := fmt.Sprintf("keeper:%d:%d", *seed, sidx)
 		fee := []string{"0", "0.003", "0.1"}[rng.Intn(3)]
-		f.setParams([]string{"WithdrawFeeRate"}, []string{fee})
 		feeD := dec(fee)
+		var f *kfix
+		var g *sharesFix // non-nil when the scenario runs on the fixture pools (the foreign app's pools exist)
 		var pool ltypes.Pool
 		var r sim.Result
 		parent := 0
-		if rng.Intn(2) == 0 {
-			// the fixture's basic pool, put into a random real-size state (a second basic pool per pair is refused)
-			f = sf.kfix.branch()
+		holder := 0
+		idx := rng.Intn(3)
+		if rng.Intn(3) != 0 {
+			// a fixture pool (ids: app 2, pair 3, pool 1..3) put into a random real-size state
+			g = sf.br()
+			pool = g.only(idx)
+			f = g.kfix
 			f.setParams([]string{"WithdrawFeeRate"}, []string{fee})
-			pool = sf.pool
 			md := []int{7, 12, 20, 30}[rng.Intn(4)]
 			irx := new(big.Int).Add(big.NewInt(1000), randMag(rng, md))
 			iry := new(big.Int).Add(big.NewInt(1000), randMag(rng, md))
 			ips := new(big.Int).Add(big.NewInt(1000), randMag(rng, md))
 			f.inject(pool, irx, iry, ips)
 		} else {
+			// a ranged pool created by message: pool 1 of pair 3
+			f = base.branch()
+			f.setParams([]string{"WithdrawFeeRate"}, []string{fee})
+			holder = 1
 			tp := 4
 			c := []string{"0.7", "1", "1.3", "0.02", "45"}[rng.Intn(5)]
 			ci := ramm.TickToIndex(ramm.PriceToDownTick(dec(c), tp), tp)
@@ -682,30 +780,31 @@ func sharesMain(args []string) int {
 				continue
 			}
 			s := newStep("create", "keeper", "ranged")
+			s.ids(pool)
 			s.inX, s.inY = x, y
-			s.rx2, s.ry2, s.ps2 = f.bal(pool.GetReserveAddress(), quoteDenom), f.bal(pool.GetReserveAddress(), baseDenom), f.supply(pool.PoolCoinDenom)
+			sn := f.snap(pool, f.e.Users[actor(1)])
+			s.rx2, s.ry2, s.ps2 = sn.rx, sn.ry, sn.ps
 			s.ax, s.ay, s.pc = s.rx2, s.ry2, s.ps2
-			s.uX, s.uY = new(big.Int).Sub(q0, f.bal(f.e.Users[actor(1)], quoteDenom)), new(big.Int).Sub(b0, f.bal(f.e.Users[actor(1)], baseDenom))
+			s.uX, s.uY = new(big.Int).Sub(q0, sn.uX), new(big.Int).Sub(b0, sn.uY)
 			f.poolPrice(s, pool)
 			parent = lg.Add(0, run, "KCreateRanged", map[string]interface{}{"x": x.String(), "y": y.String(), "min": mn.String(), "max": mx.String(), "init": init.String()}, nil, s.node())
 			nk++
 		}
-		holder := 0
-		if pool.Type == ltypes.PoolTypeRanged {
-			holder = 1
-		}
+		own := ltypes.PoolCoinDenom(pool.AppId, pool.Id)
 		holders := []int{holder}
 		for k := 0; k < 4+rng.Intn(5); k++ {
 			rxs := f.bal(pool.GetReserveAddress(), quoteDenom)
 			rys := f.bal(pool.GetReserveAddress(), baseDenom)
-			if rng.Intn(2) == 0 {
+			pss := f.supply(own)
+			switch act := rng.Intn(7); {
+			case act < 3:
 				who := 2 + rng.Intn(8)
 				x := new(big.Int).Quo(new(big.Int).Mul(rxs, big.NewInt(int64(rng.Intn(3000)))), big.NewInt(1000))
 				y := new(big.Int).Quo(new(big.Int).Mul(rys, big.NewInt(int64(rng.Intn(3000)))), big.NewInt(1000))
 				if rng.Intn(3) == 0 {
 					x, y = randMag(rng, 12), randMag(rng, 12)
 				}
-				s, ok := f.kDeposit(pool, who, x, y)
+				s, ok := f.kDeposit(pool, who, x, y, nil)
 				if ok {
 					parent = lg.Add(parent, run, "KDeposit", map[string]interface{}{"who": actor(who), "x": x.String(), "y": y.String()}, nil, s.node())
 					nk++
@@ -713,9 +812,9 @@ func sharesMain(args []string) int {
 						holders = append(holders, who)
 					}
 				}
-			} else {
+			case act < 6:
 				who := holders[rng.Intn(len(holders))]
-				have := f.bal(f.e.Users[actor(who)], pool.PoolCoinDenom)
+				have := f.bal(f.e.Users[actor(who)], own)
 				if have.Sign() == 0 {
 					continue
 				}
@@ -732,6 +831,42 @@ func sharesMain(args []string) int {
 					parent = lg.Add(parent, run, "KWithdraw", map[string]interface{}{"who": actor(who), "pc": pc.String(), "fee": fee}, nil, s.node())
 					nk++
 				}
+			default:
+				// adversarial: a request on this pool that names a coin which is not the pool's
+				amt := new(big.Int).Quo(pss, big.NewInt(int64(2+rng.Intn(50))))
+				if amt.Sign() == 0 {
+					amt = big.NewInt(1)
+				}
+				var s *step
+				var what string
+				switch v := rng.Intn(3); {
+				case v == 0 && g != nil:
+					// share coin of the pool with the same id in the foreign app; the attacker owns 10^12 of them
+					cap := f.bal(f.e.Users[actor(attacker)], ltypes.PoolCoinDenom(f.otherApp, pool.Id))
+					if amt.Cmp(cap) > 0 {
+						amt = cap
+					}
+					what = "otherApp"
+					s = f.kWithdrawCoin(pool, attacker, sdk.NewCoin(ltypes.PoolCoinDenom(f.otherApp, pool.Id), I(amt)), what, feeD)
+				case v == 1 && g != nil:
+					other := g.pools[(idx+1)%3]
+					cap := f.bal(f.e.Users[actor(0)], ltypes.PoolCoinDenom(f.appID, other.Id))
+					if amt.Cmp(cap) > 0 {
+						amt = cap
+					}
+					what = "otherPool"
+					s = f.kWithdrawCoin(pool, 0, sdk.NewCoin(ltypes.PoolCoinDenom(f.appID, other.Id), I(amt)), what, feeD)
+				default:
+					what = "notInPair"
+					x := new(big.Int).Quo(rxs, big.NewInt(int64(2+rng.Intn(9))))
+					y := new(big.Int).Quo(rys, big.NewInt(int64(2+rng.Intn(9))))
+					s, _ = f.kDeposit(pool, 2+rng.Intn(8), x, y, sdk.NewCoins(sdk.NewCoin(thirdDenom, sdkmath.NewInt(int64(1+rng.Intn(1000000))))))
+				}
+				if s != nil {
+					parent = lg.Add(parent, run, "KForeign", map[string]interface{}{"what": what, "amt": amt.String()}, nil, s.node())
+					nk++
+					nforeign++
+				}
 			}
 			f.beginNext(6 * time.Second)
 		}
@@ -741,6 +876,6 @@ func sharesMain(args []string) int {
 		fmt.Fprintln(os.Stderr, err)
 		return 2
 	}
-	fmt.Printf("amm shares: vectors=%d keeperVectors=%d random=%d rangedCreated=%d keeperSteps=%d nodes=%d\n", nvec, nkvec, *nrand, ncreate, nk, len(lg.Nodes))
+	fmt.Printf("amm shares: vectors=%d keeperVectors=%d foreign=%d random=%d rangedCreated=%d keeperSteps=%d nodes=%d\n", nvec, nkvec, nforeign, *nrand, ncreate, nk, len(lg.Nodes))
 	return 0
 }
